@@ -138,6 +138,11 @@ func (st *c05State) buildPrograms(un *c05Unit, r *rng, newID func() int) {
 				(y.Kind == "field" || y.Kind == "method") && u.pathCrossesForwardPtr(t, y.Path)) {
 				continue
 			}
+			if region != "" && y.Kind != "ambig" && y.Kind != "crash" &&
+				(y.Kind != g.Kind || y.Kind == "method" && y.Meth.Sig != g.Meth.Sig) {
+				// yaegi resolves to a member of another kind or arity: the call form written for Go's member does not compile there
+				continue
+			}
 			switch g.Kind {
 			case "field":
 				if region == "" && r.chance(45) {
@@ -532,6 +537,9 @@ func (st *c05State) collect(units []*c05Unit, dump string) {
 				nontrivU = true
 			}
 		}
+		if un.u != nil {
+			sm.CaseIndex[un.key()] = un.u.decls()
+		}
 		for _, c := range un.cases {
 			sm.Evaluations++
 			sm.ImplComparisons++
@@ -549,7 +557,14 @@ func (st *c05State) collect(units []*c05Unit, dump string) {
 				continue
 			}
 			if mm, _ := c.Input["mismatch"].(bool); mm {
-				sm.RefMismatches = append(sm.RefMismatches, refMismatch{ID: c.ID, Region: c.Region, Input: c.Input, Impl: c.Input["impl"], Ref: c.Input["ref"]})
+				full := c.Input
+				if st.full(c.Region) {
+					full = map[string]any{"decls": un.u.decls()}
+					for k, v := range c.Input {
+						full[k] = v
+					}
+				}
+				sm.RefMismatches = append(sm.RefMismatches, refMismatch{ID: c.ID, Region: c.Region, Input: full, Impl: c.Input["impl"], Ref: c.Input["ref"]})
 			}
 		}
 		for k, pu := range un.progs {
@@ -599,15 +614,22 @@ func (st *c05State) collect(units []*c05Unit, dump string) {
 						}
 						in["cases"] = ts
 					}
-					in["source"] = px.body
-					in["decls"] = un.u.decls()
+					in["universe"] = un.key()
 					sm.CaseIndex[fmt.Sprint(sub.ID)] = in
 					if nontrivU {
 						st.distinct.add(un.u.decls(), px.Kind, px.Form, fmt.Sprint(px.T, px.Ptr, px.Name, px.Src, px.Mutate, px.Bind, in["target"], in["cases"]))
 					}
 					if fmt.Sprint(ys) != fmt.Sprint(gs) {
 						progMismatch = true
-						sm.RefMismatches = append(sm.RefMismatches, refMismatch{ID: sub.ID, Region: sub.Region, Input: in, Impl: ys, Ref: gs})
+						full := in
+						if st.full(sub.Region) {
+							// complete replay material for unexplained cases and for the first cases of each region
+							full = map[string]any{"source": px.body, "decls": un.u.decls()}
+							for k, v := range in {
+								full[k] = v
+							}
+						}
+						sm.RefMismatches = append(sm.RefMismatches, refMismatch{ID: sub.ID, Region: sub.Region, Input: full, Impl: ys, Ref: gs})
 					}
 					if c := st.coqCase(un.u, px, sub, ys, gs); c != nil {
 						un.cases = append(un.cases, c)
@@ -747,6 +769,18 @@ func (st *c05State) coqCase(u *c05Univ, px *c05ProbeX, sub *c05Sub, ys, gs map[s
 		}
 	}
 	return nil
+}
+
+// full: should this mismatch carry the declarations and the probe source? (always when unexplained, else the first 25 per region)
+func (st *c05State) full(region string) bool {
+	if region == "" {
+		return true
+	}
+	if st.fullCount == nil {
+		st.fullCount = map[string]int{}
+	}
+	st.fullCount[region]++
+	return st.fullCount[region] <= 25
 }
 
 // collectExtras compares the host-stream programs line by line and the witnesses as a whole.
